@@ -278,6 +278,11 @@ impl Request {
             }
         }
 
+        if self.headers.get_raw(RequestHeader::TransferEncoding).is_some() {
+            /* transfer codings of request payload are not supported: refuse it rather than misreading the stream */
+            return Err((|| Response::NotImplemented())())
+        }
+
         let content_length = match self.headers.get_raw(RequestHeader::ContentLength) {
             Some(v) => {
                 let digits = unsafe {v.as_bytes()};
